@@ -291,6 +291,13 @@ impl Recognizer {
   fn recognize_orientation(&mut self) -> Result<()> {
     self.hit_policy_placement = self.plane.recognize_hit_policy_placement()?;
     self.rule_numbers_placement = self.plane.recognize_rule_numbers_placement()?;
+    // with rules as columns the top-left cell is the first input expression, which may read like
+    // a hit policy marker (`A`, `C`, `U`...); rule numbers placed right-after settle it
+    if self.hit_policy_placement.is_top_left() && self.rule_numbers_placement.is_right_after() {
+      if let Some(placement) = self.plane.recognize_bottom_left_hit_policy_placement() {
+        self.hit_policy_placement = placement;
+      }
+    }
     if self.plane.horizontal_double_crossing().is_some() {
       // horizontal orientation
       if self.hit_policy_placement.is_top_left() {
